@@ -83,6 +83,22 @@ CLAIMED = {
              '(documented requirement).',
         technique=TECH+'closed form decided for unbounded indices, sequential semantics by exhaustion of symbolic histories',
         ref='DESIGN.md section 4 (C13)'),
+    'C15': dict(
+        level='model_checking',
+        text='Symbolic stage: the real GraphProcessor.fix_des_var with the value an unbounded symbolic integer (real for '
+             'continuous variables) on hand-written DSG templates, for every design variable and for ordered pairs: the range '
+             'test forks symbolically (one path for all values below / above), accepted values split one per path; z3 proves '
+             'per path rejected <=> out of range or connection-choice variable (processor unchanged), accepted <=> in range. '
+             'Native continuation of every accepting path on a second processor: restricted enumeration between the two '
+             'filters of the free enumeration, decodes of restricted rows (create=True and False) are fixed points, count == '
+             'rows, and after fix/decode/free, fix/free/fix/free and fix a/fix b/free/free (both orders) the processor is '
+             'observationally equal to a fresh one (variables, enumeration, counts, decodes of every free row).',
+        note='Trusted: z3, symx. The symbolic content is the accept/reject decision over all integers/reals; the restriction '
+             'and restoration laws are decided by exhausting the accepted values of the small templates (the brief\'s own '
+             'quantifier: all variables x all values x sequences up to length 4). Outside: other graphs, the fast encoder, '
+             'statistics tables.',
+        technique=TECH+'symbolic fixed value, native continuation per path against a fresh processor',
+        ref='DESIGN.md section 4 (C15)'),
     'C16': dict(
         level='model_checking',
         text='Bounded symbolic execution of the real DesignVariableNode.__init__/correct_value and '
@@ -124,7 +140,6 @@ NOT_APPLICABLE = {
     'C19': 'thread scheduling, timed waits, asynchronous exception injected through ctypes, native blocking: concurrency and FFI',
     'C20': 'inputs are two graphs and dictionaries of node objects; resolution is set/dict look-ups on strings plus graph application; symbolic option indices would only drive list indexing',
     # under construction
-    'C15': 'check under construction in this round (planned claim, see DESIGN.md section 4)',
 }
 
 
